@@ -299,7 +299,7 @@ def nodupBy : List Bytes → Bool
   | [] => true
   | a :: as => !as.contains a && nodupBy as
 
-/-- the hypotheses of `Props/C01: DP17.search_stored`, as a computation the driver runs on every recorded case: distinct
+/-- the hypotheses of `Props/C01: DP17.search_stored` / `search_stored_partial`, as a computation the driver runs on every recorded case: distinct
     keywords, identifiers of the configured size, the hash-table keys `H(F_k1(w) ‖ c)` of all chunks pairwise different and
     different from every random filler, every recorded shuffle a permutation; and of `Props/C02: DP17.search_absent_empty` -/
 def hypsB (key : List Bytes) (db : DB) (t : Tape) (absent : List Bytes) : Bool :=
@@ -322,6 +322,21 @@ def hypsB (key : List Bytes) (db : DB) (t : Tape) (absent : List Bytes) : Bool :
       nodupBy (keys.map fun k => match k with | .ok g => g | .error _ => []) &&
       nodupBy (drawsLen cfg.dsz t) &&        -- C05 (`DP17.ht_shape`): no random filler key of the hash table repeats
       perms.all (fun p => p.isPerm (List.range p.length)) &&
+      -- C01 (`DP17.search_stored`): every probe of a stored keyword's token yields only identifiers of that keyword
+      -- (`ProbesClean`), and the probes beyond its last chunk miss the hash table
+      (match setup cfg lv key db t with
+       | .ok (e, _) => db.all fun p => match token cfg lv key p.1 with
+          | .ok [tag, vtag, etag] => (List.range cfg.L.toNat).all fun c0 =>
+              match hashH cfg lv (tag ++ natToBytesMin (c0 + 1)) with
+              | .ok g =>
+                if c0 + 1 ≤ nChunks cfg levels p.2 then
+                  match searchOne cfg lv e vtag etag (c0 + 1) g with
+                  | .ok here => here.all fun id => p.2.contains id
+                  | .error _ => false
+                else (e.HT.get g).isNone
+              | .error _ => false
+          | _ => false
+       | .error _ => false) &&
       -- C02: no probe of an absent keyword is in the hash table
       (match setup cfg lv key db t with
        | .ok (e, _) => absent.all fun w => match cfg.prfF.call lv.hmac k1 w with
